@@ -5,7 +5,7 @@
 (* igetput_varm, extract_reqs, req_commit, wait_getput, ncmpio_write_numrecs, ncmpio_sync_numrecs, redef, *)
 (* enddef, close/open).  Histories are arbitrary op lists; independent operations of different ranks are *)
 (* separate list elements, so all relative timings = all lists respecting each rank's program order. *)
-(* run_cur = the library as it is (req_commit's newnumrecs loop runs over the HEAD of the put queue); *)
+(* run_head = the loop as written in the snapshot (req_commit's newnumrecs loop runs over the HEAD of the put queue); *)
 (* run_fixed = the corrected loop (over all numLeadPutReqs entries).  g_own / written = ghost: 1 + highest *)
 (* record index of the writes completed so far (by one rank / by any rank). *)
 From Coq Require Import ZArith List.
@@ -75,98 +75,98 @@ Theorem C05_completed_write_readable :
 Proof. exact @completed_write_readable. Qed.
 Print Assumptions C05_completed_write_readable.
 
-Theorem C05_cur_coll_agree :
+Theorem C05_head_coll_agree :
   forall (n : nat) (N0 : Z) (ops : list Numrecs.op),
          (0 <= N0)%Z ->
-         let st := Numrecs.run_cur (Numrecs.init n N0) ops in
+         let st := Numrecs.run_head (Numrecs.init n N0) ops in
          (Numrecs.indep st = false ->
           forall r : Numrecs.rk, In r (Numrecs.ranks st) -> Numrecs.numrecs r = Numrecs.hdr st) /\
          (forall r : Numrecs.rk,
           In r (Numrecs.ranks st) ->
           (Numrecs.hdr st <= Numrecs.numrecs r <= Z.max N0 (Numrecs.written st))%Z) /\
          (N0 <= Numrecs.hdr st <= Z.max N0 (Numrecs.written st))%Z.
-Proof. exact @coll_agree_cur. Qed.
-Print Assumptions C05_cur_coll_agree.
+Proof. exact @coll_agree_head. Qed.
+Print Assumptions C05_head_coll_agree.
 
-Theorem C05_cur_numrecs_monotone :
+Theorem C05_head_numrecs_monotone :
   forall (n : nat) (N0 : Z) (ops1 ops2 : list Numrecs.op),
          (0 <= N0)%Z ->
-         let st := Numrecs.run_cur (Numrecs.init n N0) ops1 in
-         let st' := Numrecs.run_cur (Numrecs.init n N0) (ops1 ++ ops2) in
+         let st := Numrecs.run_head (Numrecs.init n N0) ops1 in
+         let st' := Numrecs.run_head (Numrecs.init n N0) (ops1 ++ ops2) in
          (Numrecs.hdr st <= Numrecs.hdr st')%Z /\
          Forall2
            (fun r r' : Numrecs.rk =>
             (Numrecs.numrecs r <= Numrecs.numrecs r')%Z /\ (Numrecs.g_own r <= Numrecs.g_own r')%Z)
            (Numrecs.ranks st) (Numrecs.ranks st').
-Proof. exact @numrecs_monotone_cur. Qed.
-Print Assumptions C05_cur_numrecs_monotone.
+Proof. exact @numrecs_monotone_head. Qed.
+Print Assumptions C05_head_numrecs_monotone.
 
-Theorem C05_cur_indep_sync_agree :
+Theorem C05_head_indep_sync_agree :
   forall (n : nat) (N0 : Z) (ops : list Numrecs.op) (o : Numrecs.op) (ops2 : list Numrecs.op),
          (0 <= N0)%Z ->
          sync_op o = true ->
-         Numrecs.hung (Numrecs.run_cur (Numrecs.init n N0) ops) = false ->
-         Numrecs.indef (Numrecs.run_cur (Numrecs.init n N0) ops) = false ->
+         Numrecs.hung (Numrecs.run_head (Numrecs.init n N0) ops) = false ->
+         Numrecs.indef (Numrecs.run_head (Numrecs.init n N0) ops) = false ->
          forallb quiet ops2 = true ->
-         let st := Numrecs.run_cur (Numrecs.init n N0) (ops ++ o :: ops2) in
+         let st := Numrecs.run_head (Numrecs.init n N0) (ops ++ o :: ops2) in
          forall r : Numrecs.rk, In r (Numrecs.ranks st) -> Numrecs.numrecs r = Numrecs.hdr st.
-Proof. exact @indep_sync_agree_cur. Qed.
-Print Assumptions C05_cur_indep_sync_agree.
+Proof. exact @indep_sync_agree_head. Qed.
+Print Assumptions C05_head_indep_sync_agree.
 
-Theorem C05_cur_coll_coherent_refuted :
+Theorem C05_head_coll_coherent_refuted :
   ~ coll_coherent_full.
 Proof. exact @coll_coherent_refuted. Qed.
-Print Assumptions C05_cur_coll_coherent_refuted.
+Print Assumptions C05_head_coll_coherent_refuted.
 
-Theorem C05_cur_indep_then_sync_refuted :
+Theorem C05_head_indep_then_sync_refuted :
   ~ indep_then_sync_full.
 Proof. exact @indep_then_sync_refuted. Qed.
-Print Assumptions C05_cur_indep_then_sync_refuted.
+Print Assumptions C05_head_indep_then_sync_refuted.
 
-Theorem C05_cur_completed_write_readable_refuted :
+Theorem C05_head_completed_write_readable_refuted :
   ~ completed_write_readable_full.
 Proof. exact @completed_write_readable_refuted. Qed.
-Print Assumptions C05_cur_completed_write_readable_refuted.
+Print Assumptions C05_head_completed_write_readable_refuted.
 
-Theorem C05_cur_coll_coherent_partial :
+Theorem C05_head_coll_coherent_partial :
   forall (n : nat) (N0 : Z) (ops : list Numrecs.op),
          (0 <= N0)%Z ->
          Numrecs.hist_allb Numrecs.commit_loop Numrecs.head_ok (Numrecs.init n N0) ops = true ->
-         let st := Numrecs.run_cur (Numrecs.init n N0) ops in
+         let st := Numrecs.run_head (Numrecs.init n N0) ops in
          Numrecs.indep st = false ->
          forall r : Numrecs.rk,
          In r (Numrecs.ranks st) ->
          Numrecs.numrecs r = Numrecs.hdr st /\ Numrecs.hdr st = Z.max N0 (Numrecs.written st).
 Proof. exact @coll_coherent_partial. Qed.
-Print Assumptions C05_cur_coll_coherent_partial.
+Print Assumptions C05_head_coll_coherent_partial.
 
-Theorem C05_cur_indep_then_sync_partial :
+Theorem C05_head_indep_then_sync_partial :
   forall (n : nat) (N0 : Z) (ops : list Numrecs.op) (o : Numrecs.op) (ops2 : list Numrecs.op),
          (0 <= N0)%Z ->
          Numrecs.hist_allb Numrecs.commit_loop Numrecs.head_ok (Numrecs.init n N0) (ops ++ o :: ops2) =
          true ->
          sync_op o = true ->
-         Numrecs.hung (Numrecs.run_cur (Numrecs.init n N0) ops) = false ->
-         Numrecs.indef (Numrecs.run_cur (Numrecs.init n N0) ops) = false ->
+         Numrecs.hung (Numrecs.run_head (Numrecs.init n N0) ops) = false ->
+         Numrecs.indef (Numrecs.run_head (Numrecs.init n N0) ops) = false ->
          forallb quiet ops2 = true ->
-         let st := Numrecs.run_cur (Numrecs.init n N0) (ops ++ o :: ops2) in
+         let st := Numrecs.run_head (Numrecs.init n N0) (ops ++ o :: ops2) in
          forall r : Numrecs.rk,
          In r (Numrecs.ranks st) ->
          Numrecs.numrecs r = Numrecs.hdr st /\ Numrecs.hdr st = Z.max N0 (Numrecs.written st).
 Proof. exact @indep_then_sync_partial. Qed.
-Print Assumptions C05_cur_indep_then_sync_partial.
+Print Assumptions C05_head_indep_then_sync_partial.
 
-Theorem C05_cur_completed_write_readable_partial :
+Theorem C05_head_completed_write_readable_partial :
   forall (n : nat) (N0 : Z) (ops : list Numrecs.op),
          (0 <= N0)%Z ->
          Numrecs.hist_allb Numrecs.commit_loop Numrecs.head_ok (Numrecs.init n N0) ops = true ->
-         let st := Numrecs.run_cur (Numrecs.init n N0) ops in
+         let st := Numrecs.run_head (Numrecs.init n N0) ops in
          (forall r : Numrecs.rk, In r (Numrecs.ranks st) -> (Numrecs.g_own r <= Numrecs.numrecs r)%Z) /\
          (Numrecs.indep st = false ->
           forall r : Numrecs.rk,
           In r (Numrecs.ranks st) -> (Numrecs.written st <= Numrecs.numrecs r)%Z).
 Proof. exact @completed_write_readable_partial. Qed.
-Print Assumptions C05_cur_completed_write_readable_partial.
+Print Assumptions C05_head_completed_write_readable_partial.
 
 Theorem C05_head_ok_when_all_named :
   forall q : list Numrecs.preq, Numrecs.head_ok_q q Numrecs.WAll = true.
@@ -181,19 +181,19 @@ Theorem C05_ex_coll_coherent :
 Proof. exact @coll_coherent_ex. Qed.
 Print Assumptions C05_ex_coll_coherent.
 
-Theorem C05_ex_f1_witness_cur :
-  let st := Numrecs.run_cur (Numrecs.init 2 0) f1_witness in
+Theorem C05_ex_f1_witness_head :
+  let st := Numrecs.run_head (Numrecs.init 2 0) f1_witness in
          map Numrecs.numrecs (Numrecs.ranks st) = 0%Z :: 0%Z :: nil /\
          Numrecs.hdr st = 0%Z /\
          Numrecs.written st = 6%Z /\
          Numrecs.hist_allb Numrecs.commit_loop Numrecs.head_ok (Numrecs.init 2 0) f1_witness = false.
-Proof. exact @f1_witness_cur. Qed.
-Print Assumptions C05_ex_f1_witness_cur.
+Proof. exact @f1_witness_head. Qed.
+Print Assumptions C05_ex_f1_witness_head.
 
 Theorem C05_ex_partial_hypothesis :
   Numrecs.hist_allb Numrecs.commit_loop Numrecs.head_ok (Numrecs.init 3 0) subset_ok_hist =
          true /\
-         (let st := Numrecs.run_cur (Numrecs.init 3 0) subset_ok_hist in
+         (let st := Numrecs.run_head (Numrecs.init 3 0) subset_ok_hist in
           map Numrecs.numrecs (Numrecs.ranks st) = 10%Z :: 10%Z :: 10%Z :: nil /\
           Numrecs.hdr st = 10%Z /\ Numrecs.indep st = false).
 Proof. exact @partial_hyp_ex. Qed.
